@@ -26,6 +26,9 @@
 //	                                               all; stale temp blocks before the synchronisation (failgeo.go)
 //	     [restart=1] [sy=1]                        (pseudo-property C04SYNC only, c04sync.go: requester restarted right
 //	                                               before; forced synchroniser run with the Executer's syncying flag set)
+//	sync ... rb=d<k> rmhp=<m> rmhpc=<c>            the requester's tip is rolled back by k blocks (deleteBlock) before the
+//	                                               synchronisation: finality was reached and the blocks that carried it are
+//	                                               gone (rollback.go; rb=b<k> / t1 / f<k>: pseudo-property C19CTX only)
 //
 // Tokens: p<h> responder block, q<h> requester block, a<h> tampered/relinked block, u<k> unknown id,
 // x<hex> literal id bytes.
@@ -396,7 +399,7 @@ func (prop) Classify(c corr.Case, out []string) string {
 					cl += "+main-fails"
 				}
 			}
-			cl += scaleClass(prm) + failGeoClass(prm, b)
+			cl += scaleClass(prm) + failGeoClass(prm, b) + rollbackClass(prm, finQ, b)
 			return cl
 		}
 	}
@@ -831,6 +834,7 @@ func genSync(rng *rand.Rand, tier string) []corr.Case {
 	l = append(l, genSyncMulti(rng, tier)...)
 	l = append(l, genSyncScale(rng, tier)...)
 	l = append(l, genSyncFailGeo(rng, tier)...)
+	l = append(l, genSyncRollback(rng, tier)...) // rollback.go
 	var cases []corr.Case
 	for _, sc := range l {
 		f, err := factsOf(sc.prm)
@@ -862,6 +866,14 @@ func genSync(rng *rand.Rand, tier string) []corr.Case {
 				continue
 			}
 			op += fmt.Sprintf(" tmhp=%d", m)
+		}
+		if via, k := parseRollback(strings.Fields(sc.b)); via == 'd' {
+			// rollback.go: the facts of the rolled-back node the model needs
+			mhp, mhpc, err := rollbackFacts(sc.prm, k)
+			if err != nil {
+				continue
+			}
+			op += fmt.Sprintf(" rmhp=%d rmhpc=%d", mhp, mhpc)
 		}
 		cases = append(cases, corr.Case{Ops: []string{resetLine(sc.prm, f), op}, Tag: "sync"})
 	}
